@@ -48,5 +48,9 @@ for r in res:
     if r['spec_bad']:
         c['spec_bad'] += 1
         for sb in r['spec_bad'][:2]:
-            c['spec:' + sb['key'].split('/')[-1]] += 1
+            kind = sb['key'].split('/')[-1]
+            c['spec:' + kind] += 1
+            if kind == os.environ.get('SHOW') and c['spec:' + kind] <= int(os.environ.get('NSHOW', '1')):
+                print('SPEC', sb['key'], json.dumps(sb['witness'], sort_keys=True))
+                print('\n'.join(terms.to_coq(o) for o in progs[r['idx']]))
 print(dict(c))
